@@ -1,5 +1,6 @@
 import Lean.Data.Json
 import SpoxModel.Model.Custom
+import SpoxModel.Model.CustomInline
 import SpoxModel.Drv.C11
 /-! Line-protocol handler for C18 (model side of the correspondence).
 
@@ -67,6 +68,18 @@ def handleInfer (req : Json) : Except String Json := do
         ("value", match o.value with | some v => Json.str v | none => Json.null)]).toArray),
     ("warns", Json.arr ((warns ++ vw).map warnJson).toArray)]
 
+/-- `{"kind":"adapt","imports":[[d,v],…],"domains":[…],"target":n}` : `CustomInline.decide` -/
+def handleAdapt (req : Json) : Except String Json := do
+  let impsJ ← req.getObjValAs? (List Json) "imports"
+  let imps ← impsJ.mapM fun j => match j with
+    | Json.arr #[Json.str d, v] => do return (d, ← fromJson? (α := Nat) v)
+    | _ => throw "bad import"
+  let doms ← req.getObjValAs? (List String) "domains"
+  let target ← req.getObjValAs? Nat "target"
+  match CustomInline.decide { imports := imps, nodeDomains := doms } target with
+  | .keep => return Json.mkObj [("decision", "keep")]
+  | .convert s t => return Json.mkObj [("decision", "convert"), ("src", toJson s), ("tgt", toJson t)]
+
 def handle (req : Json) : Json :=
   match (do
     let kind ← req.getObjValAs? String "kind"
@@ -74,6 +87,7 @@ def handle (req : Json) : Json :=
     | "node" => handleNode req
     | "opsets" => handleOpsets req
     | "infer" => handleInfer req
+    | "adapt" => handleAdapt req
     | _ => throw "unknown kind") with
   | .ok j => j
   | .error e => Json.mkObj [("error", e)]
